@@ -42,6 +42,19 @@ Definition told_before_s2 (j : nat) (tr : list gev) : bool :=
   | Some rest => occurs j is_wcancelling (before_sentinel tr ++ before_sentinel rest)
   end.
 
+(* born after S2: both sentinels were logged and the job's first event of any kind (its READY write included) comes after
+   the second one: it was submitted long after the expiry, when the search had to have returned already *)
+Definition any_ev (j : nat) (tr : list gev) : bool := occurs j (fun _ => true) tr.
+Definition born_after_s2 (j : nat) (tr : list gev) : bool :=
+  match after_sentinel tr with
+  | None => false
+  | Some rest =>
+    match after_sentinel rest with
+    | None => false
+    | Some rest2 => negb (any_ev j (before_sentinel tr ++ before_sentinel rest)) && any_ev j rest2
+    end
+  end.
+
 Fixpoint lookup_row (j : nat) (t : list (nat * st * Z)) : list (st * Z) :=
   match t with [] => [] | (k, s, o) :: r => if Nat.eqb j k then (s, o) :: lookup_row j r else lookup_row j r end.
 Fixpoint lookup_val (j : nat) (v : list (nat * Z)) : option Z :=
@@ -51,7 +64,8 @@ Definition mem_st (x : st) (l : list st) : bool := existsb (st_eqb x) l.
 
 (* clause for job j: 0 ok; 1 illegal event order / a poll saw something else than the status written last; 2 no terminal status;
    3 not exactly one row; 4 row status differs from the last status written; 5 returned value not kept;
-   6 still running well after the deadline without ever seeing CANCELLING; 7 told to cancel but reported DONE *)
+   6 still running well after the deadline without ever seeing CANCELLING; 7 told to cancel but reported DONE;
+   9 submitted well after the deadline *)
 Definition ok_job (tr : list gev) (vals : list (nat * Z)) (table : list (nat * st * Z)) (fail_code : Z) (j : nat) : nat :=
   match jrun jinit (proj j tr) with
   | None => 1
@@ -65,6 +79,7 @@ Definition ok_job (tr : list gev) (vals : list (nat * Z)) (table : list (nat * s
           if negb (st_eqb rs c) then 4
           else if straddles j tr && negb (told_before_s2 j tr) then 6
           else if mem_st CANCELLING (writes s) && st_eqb c DONE then 7
+          else if born_after_s2 j tr then 9
           else match returned s, lookup_val j vals with
                | true, Some v => if Z.eqb ro v then 0 else 5
                | true, None => 5
